@@ -361,6 +361,28 @@ pub fn s_library(level: usize) -> Vec<Gadget> {
         s1[Signal] = vec![Trans(1, 1.0)];
         lib.push(Gadget { name: "sig-pad".into(), m: mk((1_000_000, 1.0, 0, 0.0), vec![st_map(s0, None, (None, None)), st_map(s1, Some(Action::SendPadding { bypass: true, replace: true, timeout: c(2.0), limit: Some(c(2.0)) }), (None, None))]), kind: 'x', zero_dur: false });
     }
+    // randomised gadgets (probabilistic transitions, sampled timeouts / durations): the seed matters
+    {
+        use crate::fam::u;
+        let half = |e: Event, to: usize| -> EnumMap<Event, Vec<Trans>> {
+            let mut t: EnumMap<Event, Vec<Trans>> = enum_map! { _ => vec![] };
+            t[e] = vec![Trans(to, 0.5)];
+            t
+        };
+        let b = (1_000_000, 1.0, 1_000_000_000, 1.0);
+        let mut w = half(PaddingSent, 1);
+        w[NormalSent] = vec![Trans(1, 0.5), Trans(0, 0.25)];
+        lib.push(Gadget { name: "qpad(U[0,4),p0.5)".into(), m: mk(b, vec![st_map(half(NormalSent, 1), None, (None, None)), st_map(w, Some(Action::SendPadding { bypass: true, replace: false, timeout: u(0.0, 4.0), limit: Some(u(1.0, 4.0)) }), (None, None))]), kind: 'q', zero_dur: false });
+        let mut w = half(BlockingEnd, 1);
+        w[TunnelRecv] = vec![Trans(0, 0.5)];
+        lib.push(Gadget { name: "qblk(U[0,3),U[1,4),p0.5)".into(), m: mk(b, vec![st_map(half(NormalSent, 1), None, (None, None)), st_map(w, Some(Action::BlockOutgoing { bypass: false, replace: true, timeout: u(0.0, 3.0), duration: u(1.0, 4.0), limit: Some(u(1.0, 3.0)) }), (None, None))]), kind: 'q', zero_dur: false });
+        let mut w = half(TimerEnd, 1);
+        w[NormalSent] = vec![Trans(1, 0.5)];
+        lib.push(Gadget { name: "qtmr(U[1,3),p0.5)".into(), m: mk(b, vec![st_map(half(TunnelRecv, 1), None, (None, None)), st_map(w, Some(Action::UpdateTimer { replace: false, duration: u(1.0, 3.0), limit: Some(u(1.0, 4.0)) }), (None, None))]), kind: 'q', zero_dur: false });
+        let mut w = half(PaddingSent, 1);
+        w[TunnelRecv] = vec![Trans(1, 0.5)];
+        lib.push(Gadget { name: "qpadrecv(U[0,2),p0.5)".into(), m: mk(b, vec![st_map(half(TunnelRecv, 1), None, (None, None)), st_map(w, Some(Action::SendPadding { bypass: false, replace: true, timeout: u(0.0, 2.0), limit: Some(u(2.0, 5.0)) }), (None, None))]), kind: 'q', zero_dur: false });
+    }
     let _ = NOBUDGET;
     lib
 }
